@@ -91,6 +91,21 @@ Proof.
 Qed.
 Print Assumptions C15_only_assigned.
 
+(* Never for a validator outside the cluster: if every validators answer handed to the scheduler lists
+   cluster validators only ([vals_in_cluster cl], evaluated on every recorded history -- part of them run
+   the real eth2wrap.ValidatorCache, wired as in app/app.go, against a beacon node that also knows
+   non-cluster validators with duties and whose validators endpoint fails as scripted), then every
+   triggered definition is for a cluster public key. *)
+Theorem C15_never_outside_cluster : forall D spe fm ff cl, 0 < D -> 0 < spe -> forall t0 ls s,
+  wf_trace spe ls = true -> run D spe fm ff (init D t0) ls = Some s -> vals_in_cluster cl ls = true ->
+  forall pre t sc outs post tr pk e, ls = pre ++ LTick t sc outs :: post ->
+  In tr outs -> In (pk, e) (t_defs tr) -> memN pk cl = true.
+Proof.
+  intros D spe fm ff cl HD Hs t0 ls s Hwf H Hv pre t sc outs post tr pk e E.
+  exact (never_outside_cluster D spe fm cl t0 ls pre t sc outs post tr pk e Hs Hv (run_monitor D spe fm ff HD Hs t0 ls s Hwf H) E).
+Qed.
+Print Assumptions C15_never_outside_cluster.
+
 (* first definition wins under retries: the definition of (duty, pk) is the first one assigned over
    the whole log, and later answers never change or remove it. *)
 Theorem C15_first_definition_wins : forall spe log d pk e,
